@@ -1,0 +1,43 @@
+//go:build verif
+
+// Machine-checked contracts of the sort plugin (C18): collect the source, sort the collected slice with the
+// standard library (assumed contract: a sorted permutation; SliceStable additionally stable), replay it in
+// index order, then complete. Comments only.
+
+package rosort
+
+//@ func Sort$1$1
+//@   props C18
+//@   maypanic
+//@   track call.CollectWithContext call.Slice call.SliceStable destination.* loop.*
+//@   ensures [source-error-is-forwarded|C18] res(call.CollectWithContext, 2) != nil ==> trace(call.CollectWithContext(subscriberCtx, source), destination.ErrorWithContext(res(call.CollectWithContext, 1), res(call.CollectWithContext, 2)))
+//@   ensures [sorted-then-replayed-then-completed|C18] res(call.CollectWithContext, 2) == nil ==> trace(call.CollectWithContext(subscriberCtx, source), call.Slice(_, _), loop.L0, destination.CompleteWithContext(res(call.CollectWithContext, 1)))
+
+//@ loop Sort$1$1#0
+//@   noexit
+//@   invariant 0 <= it && it <= len(ranged)
+//@   iteration emits destination.NextWithContext(res(call.CollectWithContext, 1), ranged[it])
+
+//@ func SortFunc$1$1
+//@   props C18
+//@   maypanic
+//@   track call.CollectWithContext call.Slice call.SliceStable destination.* loop.*
+//@   ensures [source-error-is-forwarded|C18] res(call.CollectWithContext, 2) != nil ==> trace(call.CollectWithContext(subscriberCtx, source), destination.ErrorWithContext(res(call.CollectWithContext, 1), res(call.CollectWithContext, 2)))
+//@   ensures [sorted-then-replayed-then-completed|C18] res(call.CollectWithContext, 2) == nil ==> trace(call.CollectWithContext(subscriberCtx, source), call.Slice(_, _), loop.L0, destination.CompleteWithContext(res(call.CollectWithContext, 1)))
+
+//@ loop SortFunc$1$1#0
+//@   noexit
+//@   invariant 0 <= it && it <= len(ranged)
+//@   iteration emits destination.NextWithContext(res(call.CollectWithContext, 1), ranged[it])
+
+//@ func SortStableFunc$1$1
+//@   props C18
+//@   maypanic
+//@   track call.CollectWithContext call.Slice call.SliceStable destination.* loop.*
+//@   ensures [source-error-is-forwarded|C18] res(call.CollectWithContext, 2) != nil ==> trace(call.CollectWithContext(subscriberCtx, source), destination.ErrorWithContext(res(call.CollectWithContext, 1), res(call.CollectWithContext, 2)))
+//@   ensures [stably-sorted-then-replayed-then-completed|C18] res(call.CollectWithContext, 2) == nil ==> trace(call.CollectWithContext(subscriberCtx, source), call.SliceStable(_, _), loop.L0, destination.CompleteWithContext(res(call.CollectWithContext, 1)))
+
+//@ loop SortStableFunc$1$1#0
+//@   noexit
+//@   invariant 0 <= it && it <= len(ranged)
+//@   iteration emits destination.NextWithContext(res(call.CollectWithContext, 1), ranged[it])
